@@ -156,8 +156,8 @@ def gen_chunking(rng, rows, T, p, zero_at_end=False):
     return out
 
 
-NONSRC = ["rowwise", "rowwise", "filter", "cut", "mergeonly", "multi", "multi", "loop", "overlap", "downchunk",
-          "exhaust"]
+NONSRC = ["rowwise", "rowwise", "filter", "cut", "mergeonly", "multi", "multi", "loop", "loop", "overlap", "overlap",
+          "overlap", "downchunk", "exhaust"]
 
 
 def gen_graph(rng, thorough=False):
